@@ -27,6 +27,7 @@ func init() {
 
 func ruleC15(c *Check) {
 	c.addressRoles("C15.9")
+	c.bindOwnerGuard("C15.3")
 	ents := map[string]*Entry{}
 	for _, e := range c.entries("C15.1") {
 		ents[e.Msg] = e
@@ -514,7 +515,13 @@ func lastField(t *Term) string {
 	t = stripConv(t)
 	if strings.HasPrefix(t.Op, ".") {
 		parts := strings.Split(t.Op, ".")
-		return strings.ToLower(parts[len(parts)-1])
+		f := strings.ToLower(parts[len(parts)-1])
+		// a field of the query's own request (gRPC request message / legacy params) is a role; a field of a stored record
+		// read on the way keeps its record type, so that "the batch the request names" and "the context's current batch" differ
+		if len(parts) >= 3 && !strings.HasPrefix(parts[1], "Query") {
+			return strings.ToLower(parts[1]) + "." + f
+		}
+		return f
 	}
 	if t.Op == "slice" || strings.HasSuffix(t.Op, "Iterator.Key") || strings.HasSuffix(t.Op, "Iterator.Value") || t.Op == "out" {
 		return "<scanned>"
@@ -718,6 +725,7 @@ func ruleC17(c *Check) {
 	c.grpcQueryFns = grpcFns
 	c.lookupsIndependentOfConfiguration("C17.10", qfns)
 	c.schemaNameNormalisation("C17.11", qfns)
+	c.answersNotCut("C17.12", qfns)
 	// C17.6 id length checks before point lookups by request id
 	for _, q := range append(append([]querySig{}, grpc...), legacy...) {
 		for _, e := range c.P.SummaryOf(q.fn).Effs {
@@ -1204,4 +1212,45 @@ func (c *Check) schemaNameNormalisation(rule string, entries []*Func) {
 		c.req(key(got[f]) == ref && ref != "", rule, "schema-name:"+fs[0].Name+"~"+f.Name, f.Body.Pos(),
 			"both schema queries compare the same function of the requested name with the same constants: {"+ref+"} vs {"+key(got[f])+"}")
 	}
+}
+
+// answersNotCut (C17.12): a list query returns every record it has collected. In the query entry functions no slice
+// expression is applied to a list of module records (or pointers to them): cutting the collected list to a page that the
+// request cannot move (the legacy parameters carry no page) silently drops the records beyond it. Store-level pagination
+// driven by the request's own page fields (the SDK's query.Paginate over the prefix store) is a call, not a slice of results.
+func (c *Check) answersNotCut(rule string, entries []*Func) {
+	n := 0
+	for _, f := range entries {
+		if f.Body == nil {
+			continue
+		}
+		info := f.Pkg.TypesInfo
+		ast.Inspect(f.Body, func(nd ast.Node) bool {
+			se, ok := nd.(*ast.SliceExpr)
+			if !ok {
+				return true
+			}
+			tv, ok := info.Types[se.X]
+			if !ok {
+				return true
+			}
+			sl, ok := types.Unalias(tv.Type).Underlying().(*types.Slice)
+			if !ok {
+				return true
+			}
+			el := types.Unalias(sl.Elem())
+			if pt, isPtr := el.(*types.Pointer); isPtr {
+				el = pt.Elem()
+			}
+			if namedStructAny(el) == "" {
+				return true
+			}
+			n++
+			c.fail(rule, unitConstruct(f, "result-list-sliced:"+types.ExprString(se.X)), se.Pos(),
+				"the query cuts the list of records "+types.ExprString(se)+": records outside the slice are dropped from the answer")
+			return true
+		})
+	}
+	c.Sites += len(entries)
+	c.req(len(entries) >= 10, rule, "query-entries", token.NoPos, fmt.Sprintf("%d query entry functions scanned for slicing of record lists (%d found)", len(entries), n))
 }
